@@ -8,7 +8,7 @@ set_option linter.unusedSimpArgs false
 namespace Ucan.Selector
 
 /-- one iteration of the Go loop is one step of the specification -/
-theorem resolve_cons (l : Bool) (seg : Seg) (rest : List Seg) (cur : Option Node) :
+theorem resolve_cons (l : Lat) (seg : Seg) (rest : List Seg) (cur : Option Node) :
     resolve l (seg :: rest) cur = stepSpec l (classify seg) seg.optional cur >>= resolve l rest := by
   conv => lhs; unfold resolve
   unfold classify
@@ -16,8 +16,9 @@ theorem resolve_cons (l : Bool) (seg : Seg) (rest : List Seg) (cur : Option Node
   · simp only [h1, if_true, stepSpec]; rfl
   · by_cases h2 : seg.iterator
     · simp only [h1, h2, if_true, if_false, Bool.false_eq_true, stepSpec]
-      cases hopt : seg.optional <;> rcases cur with _ | (_ | _ | _ | _ | _ | _ | _ | _ | _) <;>
-        simp [bind, Except.bind]
+      cases hopt : seg.optional <;> cases hn : l.iterNull <;> cases hsc : l.iterScalar <;>
+        rcases cur with _ | (_ | _ | _ | _ | _ | _ | _ | _ | _) <;>
+        simp [bind, Except.bind, hn, hsc]
     · by_cases h3 : seg.isField
       · simp only [h1, h2, h3, if_true, if_false, Bool.false_eq_true, stepSpec]
         cases hopt : seg.optional <;> rcases cur with _ | (_ | _ | _ | _ | _ | _ | _ | kvs | _) <;>
@@ -32,7 +33,7 @@ theorem resolve_cons (l : Bool) (seg : Seg) (rest : List Seg) (cur : Option Node
             simp [bind, Except.bind, failOpt]
           all_goals first
             | (rw [extract_sliceIndices_eq_pySlice]; rfl)
-            | (cases l <;> simp [bind, Except.bind])
+            | (cases hl : l.slice <;> simp [bind, Except.bind, hl])
         | none =>
           simp only [stepSpec]
           cases hopt : seg.optional <;> rcases cur with _ | (_ | _ | _ | _ | _ | bs | xs | _ | _) <;>
@@ -43,7 +44,7 @@ theorem resolve_cons (l : Bool) (seg : Seg) (rest : List Seg) (cur : Option Node
 
 /-- resolving a selector equals resolving its segments one after the other (the fold of the
     per-kind steps of the specification): no early exit, no segment ignored -/
-theorem C12_resolve_eq_spec (l : Bool) (segs : List Seg) (cur : Option Node) :
+theorem C12_resolve_eq_spec (l : Lat) (segs : List Seg) (cur : Option Node) :
     resolve l segs cur = resolveSpec l segs cur := by
   unfold resolveSpec
   induction segs generalizing cur with
@@ -55,7 +56,7 @@ theorem C12_resolve_eq_spec (l : Bool) (segs : List Seg) (cur : Option Node) :
     exact ih c
 
 /-- `resolve (a ++ b)` is `resolve a` followed by `resolve b` on its result -/
-theorem C12_compositional (l : Bool) (a b : List Seg) (cur : Option Node) :
+theorem C12_compositional (l : Lat) (a b : List Seg) (cur : Option Node) :
     resolve l (a ++ b) cur = resolve l a cur >>= resolve l b := by
   induction a generalizing cur with
   | nil => simp [resolve, bind, Except.bind]
@@ -82,7 +83,7 @@ theorem C12_index_eq_python {α} (xs : List α) (i : Int) : goIndex xs i = pyInd
   goIndex_eq_pyIndex xs i
 
 /-- a failing optional field/index segment yields "no value", never an error -/
-theorem C12_optional_never_errors (l : Bool) (k : SegKind) (cur : Option Node)
+theorem C12_optional_never_errors (l : Lat) (k : SegKind) (cur : Option Node)
     (hk : (∃ f, k = .field f) ∨ (∃ i, k = .index i)) :
     ∃ r, stepSpec l k true cur = .ok r := by
   rcases hk with ⟨f, rfl⟩ | ⟨i, rfl⟩
@@ -95,12 +96,12 @@ theorem C12_optional_never_errors (l : Bool) (k : SegKind) (cur : Option Node)
     · cases pyIndex xs i <;> simp
 
 /-- a failing non-optional field segment is an error -/
-theorem C12_required_field_missing (l : Bool) (f : Bytes) (kvs : List (Bytes × Node))
+theorem C12_required_field_missing (l : Lat) (f : Bytes) (kvs : List (Bytes × Node))
     (h : Node.lookup f kvs = none) : stepSpec l (.field f) false (some (.map kvs)) = .error .resolution := by
   simp [stepSpec, h, failOpt]
 
 /-- a failing non-optional index segment is an error -/
-theorem C12_required_index_out_of_range (l : Bool) (i : Int) (xs : List Node)
+theorem C12_required_index_out_of_range (l : Lat) (i : Int) (xs : List Node)
     (h : pyIndex xs i = none) : stepSpec l (.index i) false (some (.list xs)) = .error .resolution := by
   simp [stepSpec, h, failOpt]
 
@@ -123,24 +124,35 @@ theorem C12_classify_slice (str : Bytes) (s0 s1 : Int) (opt : Bool) :
   simp [classify, openLo, openHi]
 
 -- non-vacuity: `.["a"][]` on {a: {x: 1, y: 2}} walks through the iterator (nothing after it is ignored)
-example (l : Bool) :
+example (l : Lat) :
     resolve l [{ str := [], isField := true, field := [97] }, { str := [], iterator := true },
              { str := [], index := -1 }]
       (some (.map [([97], .map [([120], .int 1), ([121], .int 2)])])) = .ok (some (.int 2)) := by
   simp [resolve, Node.lookup, Node.values, goIndex]
 
-/-- the one point C12 leaves open, stated: an optional slice applied to a value that cannot be sliced is an error under one
-reading and "no value" under the other; on every other (segment, value) pair the two readings agree -/
-theorem C12_latitude_is_optional_slice_only (k : SegKind) (opt : Bool) (cur : Option Node)
-    (h : stepSpec false k opt cur ≠ stepSpec true k opt cur) :
-    (∃ lo hi, k = .slice lo hi) ∧ opt = true ∧ stepSpec false k opt cur = .error .resolution ∧ stepSpec true k opt cur = .ok none := by
+/-- the points C12 leaves open, stated: two readings differ only on an OPTIONAL slice or an OPTIONAL iterator (applied to a
+value the segment cannot work on); on every field, index and identity segment, and on every non-optional segment, all readings
+agree -/
+theorem C12_latitude_only_optional_slice_or_iterator (l1 l2 : Lat) (k : SegKind) (opt : Bool) (cur : Option Node)
+    (h : stepSpec l1 k opt cur ≠ stepSpec l2 k opt cur) :
+    opt = true ∧ ((∃ lo hi, k = .slice lo hi) ∨ k = .iterator) := by
   cases k with
   | slice lo hi =>
-    rcases cur with _ | (_ | _ | _ | _ | _ | _ | _ | _ | _) <;> cases opt <;> simp_all [stepSpec]
+    refine ⟨?_, Or.inl ⟨lo, hi, rfl⟩⟩
+    cases opt
+    · rcases cur with _ | (_ | _ | _ | _ | _ | _ | _ | _ | _) <;> simp [stepSpec] at h
+    · rfl
+  | iterator =>
+    refine ⟨?_, Or.inr rfl⟩
+    cases opt
+    · rcases cur with _ | (_ | _ | _ | _ | _ | _ | _ | _ | _) <;> simp [stepSpec] at h
+    · rfl
   | _ => simp [stepSpec] at h
 
-example : resolve false [{ str := [], optional := true, slice := some (0, 2) }] (some (.int 5)) = .error .resolution ∧
-    resolve true [{ str := [], optional := true, slice := some (0, 2) }] (some (.int 5)) = .ok none := by
+example : resolve {} [{ str := [], optional := true, slice := some (0, 2) }] (some (.int 5)) = .error .resolution ∧
+    resolve { slice := true } [{ str := [], optional := true, slice := some (0, 2) }] (some (.int 5)) = .ok none ∧
+    resolve { iterScalar := .none } [{ str := [], optional := true, iterator := true }] (some (.int 5)) = .ok none ∧
+    resolve {} [{ str := [], optional := true, iterator := true }] (some (.int 5)) = .error .resolution := by
   simp [resolve]
 
 end Ucan.Selector
